@@ -243,7 +243,7 @@ register('C07', [l0_suite(['order', 'layer', 'layerpair'], monitor=c07_monitor,
          ['SQLite never passes NaN to a virtual table (it converts NaN to NULL)', 'int64 / binary64 value ranges'])
 register('C17', [l0_suite(['lww']), l1_suite(['plain', 'cb'])],
          ['kv default configuration: int keys, string values; gob/JSON codecs are third-party'])
-register('C01', [l0_suite(['merge_rows', 'merge_values']), l1_suite(['rows'])],
+register('C01', [l0_suite(['merge_rows', 'merge_values']), l1_suite(['rows']), l1_suite(['rows'], name='l1f', quick=300)],
          ['all writers of a prefix declare the same column list'])
 
 # ---------------------------------------------------------------- L2 (SQL)
@@ -584,7 +584,7 @@ def ro_connections(case):
     return {o[1] for o in parse_sql_kinds(case) if o[0] == 'create' and o[2] == 't'}
 
 def tie_keys(case):
-    """keys written at one write time through two different connections: the merged value of such a
+    """keys written twice at one write time: the merged value of such a
     key depends on the order in which versions are merged (ties are outside the documented rule;
     C01/C02 state it for distinct times), so two opens may legitimately disagree on it"""
     wt, seen, ties = {}, {}, set()
@@ -593,9 +593,11 @@ def tie_keys(case):
             wt[o[1]] = o[3]
         elif o[0] in ('ins', 'upd', 'del'):
             t = wt.get(o[1], 0)
-            prev = seen.setdefault((o[2], t), o[1])
-            if prev != o[1] or t == 0:
+            # (also two writes of ONE connection at one time: the version holding the first and
+            #  the version holding the second both carry that time)
+            if (o[2], t) in seen or t == 0:
                 ties.add(o[2])
+            seen[(o[2], t)] = o[1]
     return ties
 
 def vacuum_ops(case):
@@ -676,7 +678,7 @@ def c15_monitor(ctx, res, case, impl_line, model_line, spec):
 
 register('C13', [l2_suite('ro', native=False, extra_monitor=c13_monitor, name='l2-ro'), l1_suite(['rows', 'plain'])],
          ['the request log of the HTTP proxy in front of gofakes3 sees every storage request'])
-register('C09', [l2_suite('vacuum', native=False, extra_monitor=c09_monitor, name='l2-vacuum'), l1_suite(['rows'])],
+register('C09', [l2_suite('vacuum', native=False, extra_monitor=c09_monitor, name='l2-vacuum'), l1_suite(['rows', 'plain']), l1_suite(['rows'], name='l1f', quick=120)],
          ['cutoffs are far from the wall clock (version creation times are not controlled at SQL level)'])
 register('C10', [l1_suite(['rows', 'plain']), l2_suite('vacuum', native=False, extra_monitor=c09_monitor, name='l2-vacuum')],
          ['version creation times are passed explicitly at the kv level'])
